@@ -21,7 +21,11 @@ def replay(w):
                 rng = np.random.default_rng(seed)
                 A = rng.standard_normal((n, n))
                 S = A @ A.T / n + 0.1 * np.eye(n)
-                for val in ([int(inp.get('lam', 1))] if kind == 'type' else [0.01, 0.25]):
+                tag = nt.get('tag')
+                vals = [0.01, 0.25]
+                if kind == 'type':
+                    vals = [1, 2] if tag in ('int', 'np.int64') else [float(FORMS[tag](0.11)), float(FORMS[tag](0.37))]
+                for val in vals:
                     ref = admm.admm_optimize_theta(S, float(val), W, N, max_iterations=25).theta
                     if kind == 'value':
                         got = admm.admm_optimize_theta(S, np.full((n, n), float(val)), W, N, max_iterations=25).theta
@@ -29,7 +33,7 @@ def replay(w):
                     else:
                         got = admm.admm_optimize_theta(S, FORMS[nt['tag']](val), W, N, max_iterations=25).theta
                         sig = 'lambda-type-form-differs'
-                    if not np.allclose(got, ref, rtol=1e-9, atol=1e-12):
+                    if not np.array_equal(np.asarray(got, float).view(np.uint64), np.asarray(ref, float).view(np.uint64)) if kind == 'type' else not np.allclose(got, ref, rtol=1e-9, atol=1e-12):
                         return {'reproduced': True, 'signature': sig,
                                 'observed': {'lambda': val, 'ref': np.asarray(ref).tolist(), 'got': np.asarray(got).tolist()}}
                     worst = {'ref': np.asarray(ref).tolist(), 'got': np.asarray(got).tolist()}
@@ -37,7 +41,8 @@ def replay(w):
         if kind == 'beta':
             T, K = int(nt['T']), int(nt['K'])
             cost = np.array([[flt(inp.get('c_%d_%d' % (i, k), 0)) for k in range(K)] for i in range(T)])
-            val = int(inp.get('b', 1))
+            val = flt(inp.get('b', 1)) if nt['tag'] not in ('int', 'np.int64') else int(flt(inp.get('b', 1)))
+            val = float(FORMS[nt['tag']](val)) if nt['tag'] not in ('int', 'np.int64') else val
             p1, c1 = cla.assign_point_cluster_labels(cost, FORMS[nt['tag']](val))
             p2, c2 = cla.assign_point_cluster_labels(cost, np.full((T,), float(val)))
             bad = [int(x) for x in p1] != [int(x) for x in p2] or float(c1) != float(c2)
@@ -45,7 +50,8 @@ def replay(w):
                     'observed': {'scalar': [[int(x) for x in p1], float(c1)], 'vector': [[int(x) for x in p2], float(c2)]}}
         if kind == 'floor':
             M = np.array([[flt(inp.get('m_%d_%d' % (i, j), 0)) for j in range(2)] for i in range(2)])
-            val = int(inp.get('eps', 1))
+            val = flt(inp.get('eps', 1)) if nt['tag'] not in ('int', 'np.int64') else int(flt(inp.get('eps', 1)))
+            val = float(FORMS[nt['tag']](val)) if nt['tag'] not in ('int', 'np.int64') else val
             a = gl._zero_small_elements(M, FORMS[nt['tag']](val))
             b = gl._zero_small_elements(M, float(val))
             bad = not np.array_equal(a, b)
@@ -70,7 +76,10 @@ def validate(witnesses):
         L = n * (n + 1) // 2
         x = np.array([flt(inp.get('x_%d' % k, 0)) for k in range(L)])
         u = np.array([flt(inp.get('u_%d' % k, 0)) for k in range(L)])
-        lam = FORMS[nt['tag']](int(inp.get('lam', 0)))
+        lam = FORMS[nt['tag']](flt(inp.get('lam', 0))) if nt['tag'] not in ('int', 'np.int64') else FORMS[nt['tag']](int(flt(inp.get('lam', 0))))
+        if nt['tag'] in ('np.float32',) and float(lam) != flt(inp.get('lam', 0)):
+            skipped += 1
+            continue
         args = arguments.ADMMArguments(window_size=W, num_data_series=N, rho=flt(inp.get('rho', 1)), rho_update=None,
                                        sparsity_weight=lam, absolute_tolerance=1e-6, relative_tolerance=1e-6,
                                        max_iterations=1, verbose=False)
